@@ -10,7 +10,8 @@ Operation order is transliterated literally:
 * `then`           mat.rs:191   `other.compose(self)`
 * `apply/apply_pt` mat.rs:211-247 implicit homogeneous 1, **also for vectors** (`// TODO w=0.0`)
 * `determinant`    mat.rs:266   cofactors along row 0 through `det2`, `det3`
-* `inverse`        mat.rs:300   Gauss–Jordan, partial pivoting with `max_by` (last maximum wins)
+* `inverse`        mat.rs:300   Gauss–Jordan, partial pivoting with `max_by` (last maximum wins),
+                                guard `det² > ε²·Π|rowᵢ|²` (debug profile)
 
 Rust panics are `Outcome.panic`; nothing is totalised: a zero divisor in `inverse` is the
 `debug_assert!(inv.is_finite())` panic, never `x / 0 = 0`.
@@ -187,6 +188,10 @@ def M4.det (m : M4 α) : α :=
   let det3 (j k l : Fin 4) : α := r.get j * det2 k l - r.get k * det2 j l + r.get l * det2 j k
   a * det3 1 2 3 - b * det3 0 2 3 + c * det3 0 1 3 - d * det3 0 1 2
 
+/-- mat.rs:307-309 `(0..4).map(|i| self.row_vec(i).len_sqr()).product()`: the squared Hadamard bound of the
+determinant (`Iterator::product` folds from `1.0`). -/
+def M4.scaleSqr (m : M4 α) : α := 1 * dot4 m.r0 m.r0 * dot4 m.r1 m.r1 * dot4 m.r2 m.r2 * dot4 m.r3 m.r3
+
 /-! ### constructors (mat.rs:142-153, 493-583) -/
 
 /-- mat.rs:144 `from_basis(i, j, k)`: the basis vectors are the *columns*. -/
@@ -319,9 +324,11 @@ def normStep (s : Outcome (GJ α)) (r : Fin 4) : Outcome (GJ α) :=
     else .ok (s.both (.scale r (1 / d)))
 
 /-- The whole elimination, returning the final `(this, inv)`.
-`eps` is `f32::EPSILON` of the guard `assert!(abs(det) > EPSILON)` (debug profile). -/
+`eps` is `f32::EPSILON` of the debug-profile guard (mat.rs:303-315, as of d46db54)
+`assert!(det * det > EPSILON * EPSILON * scale_sqr)`: near-singularity is judged relative to the
+Hadamard bound `scale_sqr = Π |row_i|²`, not absolutely. -/
 def inverseGJ (eps : α) (a : M4 α) : Outcome (GJ α) :=
-  if eps < absS a.det then
+  if eps * eps * a.scaleSqr < a.det * a.det then
     let s1 := allIdx.foldl fwdStep ⟨a, M4.identity⟩
     let s2 := ([3, 2, 1] : List (Fin 4)).foldl backStep (.ok s1)
     allIdx.foldl normStep s2
